@@ -32,5 +32,6 @@ def run(project, rep):
     rep.run(S.s_r7_shadowing, schema, rep)
     rep.run(S.s_r8_buildable, schema, rep)
     rep.run(S.s_r9_own_descriptor, schema, rep)
+    rep.run(S.s_r10_per_class_tables, schema, rep)
     from .. import rules_values as V
     rep.run(V.v_r8_token_tables, project, rep)
